@@ -40,39 +40,41 @@ Definition in_space (c : cfg) : Prop :=
 (* ------------------------------------------------------------------ documented rules *)
 (* (outputs, inputs) *)
 Definition rule := (list string * list string)%type.
+(* the documented kernel ("<module>.<function>" of scippneutron.conversion) computing these outputs from these inputs *)
+Definition krule := (string * rule)%type.
 
-Definition beamline_scatter : list rule :=
-  [ (["incident_beam"], ["source_position"; "sample_position"]);     (* sample_position - source_position *)
-    (["scattered_beam"], ["position"; "sample_position"]);           (* position - sample_position *)
-    (["L1"], ["incident_beam"]);                                     (* |incident_beam| *)
-    (["L2"], ["scattered_beam"]);                                    (* |scattered_beam| *)
-    (["two_theta"], ["incident_beam"; "scattered_beam"]);            (* angle between the beams *)
-    (["Ltotal"], ["L1"; "L2"]) ].                                    (* L1 + L2 *)
-Definition beamline_no_scatter : list rule :=
-  [ (["Ltotal"], ["source_position"; "position"]) ].                 (* |position - source_position| *)
+Definition beamline_scatter : list krule :=
+  [ ("beamline.straight_incident_beam", (["incident_beam"], ["source_position"; "sample_position"]));  (* sample_position - source_position *)
+    ("beamline.straight_scattered_beam", (["scattered_beam"], ["position"; "sample_position"]));       (* position - sample_position *)
+    ("beamline.L1", (["L1"], ["incident_beam"]));                                                      (* |incident_beam| *)
+    ("beamline.L2", (["L2"], ["scattered_beam"]));                                                     (* |scattered_beam| *)
+    ("beamline.two_theta", (["two_theta"], ["incident_beam"; "scattered_beam"]));                      (* angle between the beams *)
+    ("beamline.total_beam_length", (["Ltotal"], ["L1"; "L2"])) ].                                      (* L1 + L2 *)
+Definition beamline_no_scatter : list krule :=
+  [ ("beamline.total_straight_beam_length_no_scatter", (["Ltotal"], ["source_position"; "position"])) ]. (* |position - source_position| *)
 
-Definition q_and_hkl : list rule :=
-  [ (["Q"], ["wavelength"; "two_theta"]);
-    (["Qx"; "Qy"; "Qz"], ["wavelength"; "incident_beam"; "scattered_beam"]);
-    (["Q_vec"], ["Qx"; "Qy"; "Qz"]);
-    (["ub_matrix"], ["u_matrix"; "b_matrix"]);
-    (["hkl_vec"], ["Q_vec"; "ub_matrix"; "sample_rotation"]);
-    (["h"; "k"; "l"], ["hkl_vec"]) ].
+Definition q_and_hkl : list krule :=
+  [ ("tof.Q_from_wavelength", (["Q"], ["wavelength"; "two_theta"]));
+    ("tof.Q_elements_from_wavelength", (["Qx"; "Qy"; "Qz"], ["wavelength"; "incident_beam"; "scattered_beam"]));
+    ("tof.Q_vec_from_Q_elements", (["Q_vec"], ["Qx"; "Qy"; "Qz"]));
+    ("tof.ub_matrix_from_u_and_b", (["ub_matrix"], ["u_matrix"; "b_matrix"]));
+    ("tof.hkl_vec_from_Q_vec", (["hkl_vec"], ["Q_vec"; "ub_matrix"; "sample_rotation"]));
+    ("tof.hkl_elements_from_hkl_vec", (["h"; "k"; "l"], ["hkl_vec"])) ].
 
-Definition dynamics (o : string) : list rule :=
+Definition dynamics (o : string) : list krule :=
   if String.eqb o "tof" then
-    [ (["wavelength"], ["tof"; "Ltotal"]);
-      (["energy"], ["tof"; "Ltotal"]);
-      (["dspacing"], ["tof"; "Ltotal"; "two_theta"]);
-      (["time_at_sample"], ["pulse_time"; "tof"; "L2"; "wavelength"]) ] ++ q_and_hkl
+    [ ("tof.wavelength_from_tof", (["wavelength"], ["tof"; "Ltotal"]));
+      ("tof.energy_from_tof", (["energy"], ["tof"; "Ltotal"]));
+      ("tof.dspacing_from_tof", (["dspacing"], ["tof"; "Ltotal"; "two_theta"]));
+      ("tof.time_at_sample_from_tof", (["time_at_sample"], ["pulse_time"; "tof"; "L2"; "wavelength"])) ] ++ q_and_hkl
   else if String.eqb o "wavelength" then
-    [ (["energy"], ["wavelength"]);
-      (["dspacing"], ["wavelength"; "two_theta"]) ] ++ q_and_hkl
+    [ ("tof.energy_from_wavelength", (["energy"], ["wavelength"]));
+      ("tof.dspacing_from_wavelength", (["dspacing"], ["wavelength"; "two_theta"])) ] ++ q_and_hkl
   else if String.eqb o "energy" then
-    [ (["wavelength"], ["energy"]);
-      (["dspacing"], ["energy"; "two_theta"]) ]
+    [ ("tof.wavelength_from_energy", (["wavelength"], ["energy"]));
+      ("tof.dspacing_from_energy", (["dspacing"], ["energy"; "two_theta"])) ]
   else if String.eqb o "Q" then
-    [ (["wavelength"], ["Q"; "two_theta"]) ]
+    [ ("tof.wavelength_from_Q", (["wavelength"], ["Q"; "two_theta"])) ]
   else [].
 
 Inductive mode := Elastic | Direct | Indirect.
@@ -81,17 +83,19 @@ Definition mode_name (m : mode) : string :=
 Definition direct_kernel := "tof.energy_transfer_direct_from_tof".
 Definition indirect_kernel := "tof.energy_transfer_indirect_from_tof".
 
-Definition spec_rules (scatter : bool) (m : mode) (o : string) : list rule :=
+Definition spec_krules (scatter : bool) (m : mode) (o : string) : list krule :=
   if scatter then
     beamline_scatter ++
     match m with
     | Elastic => dynamics o
-    | Direct => [ (["energy_transfer"], ["tof"; "L1"; "L2"; "incident_energy"]) ]
-    | Indirect => [ (["energy_transfer"], ["tof"; "L1"; "L2"; "final_energy"]) ]
+    | Direct => [ (direct_kernel, (["energy_transfer"], ["tof"; "L1"; "L2"; "incident_energy"])) ]
+    | Indirect => [ (indirect_kernel, (["energy_transfer"], ["tof"; "L1"; "L2"; "final_energy"])) ]
     end
   else
     (* without scattering only the kinematics of the time of flight is defined *)
-    beamline_no_scatter ++ [ (["wavelength"], ["tof"; "Ltotal"]); (["energy"], ["tof"; "Ltotal"]) ].
+    beamline_no_scatter ++ [ ("tof.wavelength_from_tof", (["wavelength"], ["tof"; "Ltotal"]));
+                             ("tof.energy_from_tof", (["energy"], ["tof"; "Ltotal"])) ].
+Definition spec_rules (scatter : bool) (m : mode) (o : string) : list rule := map snd (spec_krules scatter m o).
 
 (* the energy mode, or None where the request must be refused:
    energy_transfer with both or neither of incident_energy / final_energy;
@@ -120,3 +124,13 @@ Fixpoint kernels (t : tree) : list string :=
   match t with Leaf _ => [] | Node k _ cs => k :: flat_map kernels cs end.
 Definition root_names (t : tree) : list string :=
   match t with Leaf n => [n] | Node _ outs _ => outs end.
+
+(* every step of a derivation applies the documented kernel for its outputs to derivations of
+   exactly its documented inputs *)
+Inductive Documented (krules : list krule) : tree -> Prop :=
+| Doc_leaf : forall n, Documented krules (Leaf n)
+| Doc_node : forall k outs ins cs,
+    In (k, (outs, ins)) krules -> List.length cs = List.length ins ->
+    (forall i, In i ins -> exists c, In c cs /\ In i (root_names c)) ->
+    (forall c, In c cs -> Documented krules c) ->
+    Documented krules (Node k outs cs).
